@@ -56,6 +56,34 @@ fn lexicase_replay() {
         assert!(Lexicase::new(cases).select(&pop, &mut rng).is_err(), "lexicase on an empty population must report an error");
         return;
     }
+    // LEX_SHORT=<m>: the selector is configured with MORE cases (m) than the individuals hold results (X9): every outcome must be
+    // explained by some case order -- Err(MissingTestCase{m, idx}) iff the first case without results in that order is idx and at
+    // least two candidates survive the cases before it; Ok(w) iff w is the single survivor before it (or no such case is reached)
+    if let Some(mcfg) = std::env::var("LEX_SHORT").ok().and_then(|s| s.parse::<usize>().ok()) {
+        use ec_core::operator::selector::lexicase::LexicaseError;
+        let cols = r[0].len();
+        let pop: Vec<EcIndividual<usize, TestResults<Score<i64>>>> = r.iter().enumerate().map(|(i, row)| EcIndividual::new(i, row.iter().copied().into())).collect();
+        let perms = permutations(mcfg);
+        for seed in 0..2000u64 {
+            let mut rng = StdRng::seed_from_u64(seed);
+            let got = std::panic::catch_unwind(std::panic::AssertUnwindSafe(|| Lexicase::new(mcfg).select(&pop, &mut rng).map(|i| *i.genome())));
+            let explained = match &got {
+                Err(_) => false,
+                Ok(Ok(w)) => perms.iter().any(|sg| {
+                    let k = sg.iter().position(|c| *c >= cols).unwrap_or(sg.len());
+                    let sv = survivors(&r, &sg[..k], false);
+                    (k == sg.len() || sv.len() == 1) && sv.contains(w)
+                }),
+                Ok(Err(LexicaseError::MissingTestCase { total_cases, current_index })) => perms.iter().any(|sg| {
+                    let k = sg.iter().position(|c| *c >= cols);
+                    *total_cases == mcfg && k.map_or(false, |k| sg[k] == *current_index && survivors(&r, &sg[..k], false).len() >= 2)
+                }),
+                Ok(Err(_)) => false,
+            };
+            assert!(explained, "REPLAY-VIOLATION lexicase configured with {mcfg} cases on individuals holding {cols} results: outcome {got:?} is explained by no case order; results {r:?}, seed {seed}");
+        }
+        return;
+    }
     // LEX_CONFIGURED: the selector is configured with fewer cases than the individuals hold results (only the first m count)
     let m = std::env::var("LEX_CONFIGURED").ok().and_then(|s| s.parse::<usize>().ok()).unwrap_or(r[0].len()).min(r[0].len());
     let allowed: Vec<usize> = {
